@@ -658,3 +658,60 @@ Example history_nonvacuous :
   | _ => False
   end.
 Proof. vm_compute. split; [reflexivity | eexists; split; reflexivity]. Qed.
+
+(* ------------------------------------------------------------------ Validate is history-independent *)
+Lemma cm_run_ttl H : forall ops ttl, fst (cm_run H ttl ops) = ttl_after ttl ops.
+Proof.
+  induction ops as [|o r IH]; intros ttl; [reflexivity|].
+  destruct o as [n t|n c t|n]; cbn [cm_run cm_step ttl_after fold_left].
+  - specialize (IH ttl). destruct (cm_run H ttl r) as [t2 xs]. exact IH.
+  - specialize (IH ttl). destruct (cm_run H ttl r) as [t2 xs]. exact IH.
+  - specialize (IH n). destruct (cm_run H n r) as [t2 xs]. exact IH.
+Qed.
+
+Lemma cm_run_app H : forall pre ttl post,
+  cm_run H ttl (pre ++ post) =
+  let '(t1, xs) := cm_run H ttl pre in let '(t2, ys) := cm_run H t1 post in (t2, xs ++ ys).
+Proof.
+  induction pre as [|o r IH]; intros ttl post; simpl.
+  - destruct (cm_run H ttl post); reflexivity.
+  - destruct (cm_step H ttl o) as [t1 x]. rewrite IH. destruct (cm_run H t1 r) as [t2 xs].
+    destruct (cm_run H t2 post); reflexivity.
+Qed.
+
+(* the verdict on (now, cookie, tuple) after ANY history of earlier Generate / Validate / lifetime changes
+   is validate under the lifetime in effect: earlier validations (accepted or not) never change it *)
+Lemma validate_history_independent H ttl pre now c t :
+  snd (cm_run H ttl (pre ++ [CVal now c t])) =
+  snd (cm_run H ttl pre) ++ [CVerdict (validate H (ttl_after ttl pre) now c t)].
+Proof.
+  rewrite cm_run_app. pose proof (cm_run_ttl H pre ttl) as Ht.
+  destruct (cm_run H ttl pre) as [t1 xs]. simpl in *. subst t1. reflexivity.
+Qed.
+
+(* in particular: accepted while fresh, replayed after expiry => rejected, whatever happened in between *)
+Lemma expired_replay_rejected H ttl pre now c mac sv cv a b c4 d :
+  skipn 32 c = [a; b; c4; d] -> (ttl_after ttl pre < now - Z.of_N (be32 a b c4 d) * ns_per_s)%Z ->
+  snd (cm_run H ttl (pre ++ [CVal now c (mac, sv, cv)])) = snd (cm_run H ttl pre) ++ [CVerdict false].
+Proof.
+  intros Hs Hlt. rewrite validate_history_independent. erewrite validate_expired; eauto.
+Qed.
+
+(* PADR level: in ANY table state (any earlier history, including this very PADR having been answered
+   before), a PADR whose cookie has outlived the lifetime creates nothing *)
+Lemma padr_expired_no_state v e s t p tg a b c4 d s' r :
+  parse_tags p = Ok tg -> skipn 32 (t_cookie tg) = [a; b; c4; d] ->
+  (e_ttl e < e_now_ns e - Z.of_N (be32 a b c4 d) * ns_per_s)%Z ->
+  step v e s (PADR t p) = Some (s', r) -> s' = s /\ r = ONone.
+Proof.
+  intros Hp Hs Hlt Hst. eapply padr_rejected_no_state; [exact Hst|].
+  intros tg' Hp'. rewrite Hp in Hp'. inversion Hp'; subst tg'. destruct t as [[mac sv] cv].
+  eapply validate_expired; eauto.
+Qed.
+
+Example history_independence_nonvacuous :
+  let c := generate oneH 1000 tA in
+  snd (cm_run oneH 60000000000 [CGen 1000 tA; CVal 1000500000000 c tA; CVal 1000500000000 c tA;
+                                CVal 1061500000000 c tA; CSetTTL 0; CVal 1000500000000 c tA]) =
+  [CCookie c; CVerdict true; CVerdict true; CVerdict false; CNone; CVerdict false].
+Proof. vm_compute. reflexivity. Qed.
